@@ -151,6 +151,8 @@ class Interp(object):
             fi = env.f(i)
             t = fi if w == 1 else (w * fi if isinstance(w, int) or abs(w) < 1 else fi * w)
             g = t if g is None else g + t
+        if any(g is h for h in env.F):
+            g = g * 1        # a single term of weight 1: still a new (composite) function object
         env.F.append(g)
         env.Fmeta.append({"cls": "composite", "terms": terms, "leaf": False})
         env.features.add("composite")
@@ -326,7 +328,8 @@ class Interp(object):
             return None
         f = env.f(fi)
         x0 = env.p(pi)
-        before = {id(g): len(g.list_of_constraints) for g in env.F}
+        uniq = list({id(g): g for g in env.F}.values())
+        before = {id(g): len(g.list_of_constraints) for g in uniq}
         out = None
         if kind == "prox":
             x, gx, fx = PS.proximal_step(x0, f, args[0])
@@ -377,7 +380,7 @@ class Interp(object):
             out = x
         else:
             raise ValueError(kind)
-        for g in env.F:
+        for g in uniq:
             for c in g.list_of_constraints[before[id(g)]:]:
                 env.step_constraints.append((g, c))
         env.features.add("step:" + kind)
@@ -514,6 +517,70 @@ class Interp(object):
         env.pep.set_performance_metric(e, name=name)
         env.declared_metrics.append(e)
         return e
+
+    # ------------------------------------------------------------------------------------------------------
+    # edits of an existing model (the way the repository's own tests edit a PEP between two solves)
+    # ------------------------------------------------------------------------------------------------------
+    def _forget(self, c):
+        env = self.env
+        for k, (w, d) in enumerate(env.declared_constraints):
+            if d is c and w == "pep":
+                del env.declared_constraints[k]
+                return
+
+    def op_replace_init(self, ei, R):
+        """replace the first PEP-level constraint (the initial condition) by  E[ei] <= R"""
+        env = self.env
+        if not env.E:
+            env.skipped += 1
+            return None
+        c = env.e(ei) <= R
+        lst = list(env.pep.list_of_constraints)
+        if lst:
+            self._forget(lst[0])
+            lst[0] = c
+        else:
+            lst = [c]
+        env.pep.list_of_constraints = lst
+        env.declared_constraints.insert(0, ("pep", c))
+        env.C.append(c)
+        env.features.add("edit:replace_init")
+        return c
+
+    def op_drop_init(self):
+        env = self.env
+        lst = list(env.pep.list_of_constraints)
+        if not lst:
+            env.skipped += 1
+            return None
+        self._forget(lst[0])
+        env.dropped = getattr(env, "dropped", []) + [lst[0]]
+        env.pep.list_of_constraints = lst[1:]
+        env.features.add("edit:drop_init")
+        return lst[0]
+
+    def op_restore_init(self):
+        env = self.env
+        dropped = getattr(env, "dropped", [])
+        if not dropped:
+            env.skipped += 1
+            return None
+        c = dropped.pop()
+        env.pep.list_of_constraints = [c] + list(env.pep.list_of_constraints)
+        env.declared_constraints.insert(0, ("pep", c))
+        env.features.add("edit:restore_init")
+        return c
+
+    def op_assign_metrics(self, eis):
+        env = self.env
+        if not env.E:
+            env.skipped += 1
+            return None
+        ms = [env.e(i) for i in eis]
+        env.pep.list_of_performance_metrics = list(ms)
+        env.declared_metrics = list(ms)
+        env.features.add("edit:assign_metrics")
+        return ms
 
     # ------------------------------------------------------------------------------------------------------
     def op_solve(self, options):
